@@ -16,8 +16,13 @@ Decided (structural preconditions of equality; the lane arithmetic itself is dec
   blake2     SIMD G rotation amounts equal R1..R4 of the parameter set (byte-shuffle masks decoded as
              rotations, slli/srli pairs summing to the lane width)
   chacha     both ChaCha engines satisfy the same layout / counter / round rules (re-evaluated from C03)
-Not decided: bit-identity of the vector and scalar round computations (message permutation macros,
-lane-wise compression) beyond the rules above."""
+  compress-eq  the SHA-256 block functions of every build (portable; 4-way SSE4.1 incl. scalar tail; 8-way AVX incl. the 4-way
+             path) equal the FIPS 180-4 compression over runs of 1..13 blocks AS VALUE GRAPHS, hence each other
+  lane-eq    BLAKE2b/s AVX / AVX2 compressions equal RFC 7693 F as value graphs, final and non-final
+  block-eq   both ChaCha engines (SSE2, portable): init for every key / nonce length, rounds for 8/12/20, add_back, output,
+             HChaCha words, counters equal the same specification graphs
+  block-run  the scalar tails hand every remaining block to the next implementation down (shared with C02)
+Not decided: block counts beyond the compared runs (the batch / tail loop structure is decided by stride / block-run)."""
 import re
 
 from .. import mir, pred, rules, facts as F
@@ -26,7 +31,7 @@ from ..spec import hashes as H
 from . import C03
 
 EXPLANATION = __doc__
-TECHNIQUE = "R-BUILD type checks per configuration, dispatcher wiring per configuration, loop-guard / slice-advance constant agreement, shift-pair census, ADT layout facts, argument provenance of aligned-access intrinsics"
+TECHNIQUE = "value-graph equality (abstract interpretation of MIR in a hash-consed bit-level term domain with linear-combination, parity and truth-table normal forms) against specification graphs; R-BUILD type checks per configuration, dispatcher wiring per configuration, loop-guard / slice-advance constant agreement, shift-pair census, ADT layout facts, argument provenance of aligned-access intrinsics"
 
 
 def cn(fn, op):
